@@ -419,6 +419,54 @@ def known_findings(pid):
     return out
 
 
+def run_race_engine(ctx, spec):
+    """C18: free-running workloads under the Go race detector; reports deduplicated by function pair"""
+    import racepairs
+    secs = spec["quick"] if ctx.tier == "quick" else spec["thorough"]
+    out = os.path.join(CACHE, "run", f"{ctx.pid}_race")
+    if os.path.exists(out):
+        shutil.rmtree(out)
+    os.makedirs(out)
+    env = dict(os.environ, GORACE=f"halt_on_error=0 log_path={out}/race")
+    t0 = time.time()
+    p = subprocess.run([os.path.join(CACHE, "harness_race"), "race", "--seconds", str(secs), "--known", "--out", out],
+                       env=env, stdout=subprocess.PIPE, stderr=subprocess.STDOUT, text=True, timeout=3000)
+    ctx.checker_cmds.append(f"GORACE=log_path=... .cache/harness_race race --seconds {secs} --known   # go build -race")
+    if not os.path.exists(os.path.join(out, "summary.json")):
+        ctx.violation("race", "the race workloads crashed: " + p.stdout[-1500:], data={"engine": "race"})
+        return
+    s = json.load(open(os.path.join(out, "summary.json")))
+    pairs = racepairs.pairs(glob.glob(os.path.join(out, "race.*")))
+    kf = known_findings(ctx.pid)
+    classes = {}
+    for cls, txt in kf.items():
+        m = re.search(r"pairs=/(.*?)/ ", txt)
+        if m:
+            classes[cls] = (re.compile(m.group(1)), txt.split("/ ", 1)[1] if "/ " in txt else txt)
+    seen_cls = {}
+    for key, rep in sorted(pairs.items()):
+        hit = [c for c, (rx, _) in classes.items() if rx.search(key)]
+        if hit:
+            seen_cls.setdefault(hit[0], []).append(key)
+        else:
+            ctx.violation("race", f"data race between {key}", data={"engine": "race", "pair": key, "report": rep})
+    for cls, keys in seen_cls.items():
+        ctx.known.append(f"{cls} {classes[cls][1][:220]} [pairs seen this run: {'; '.join(keys[:6])}]")
+    for w in (s.get("stuck") or []):
+        ctx.violation("deadlock", f"workload '{w}' did not terminate within 20 s after it was told to stop", data={"engine": "race", "workload": w})
+    for pn in (s.get("panics") or [])[:3]:
+        if "K11" in pn and "K11" in classes:
+            continue
+        ctx.violation("panic", "panic under concurrent use: " + pn, data={"engine": "race", "panic": pn})
+    cov = ctx.coverage
+    ops = sum(s["operations_by_workload"].values())
+    cov["evaluations"] += ops
+    cov["distinct_nontrivial"] += len(s["operations_by_workload"])
+    cov.setdefault("engines", []).append({"engine": "race", "operations_by_workload": s["operations_by_workload"], "cores": s["cores"],
+                                          "race_pairs": sorted(pairs), "seconds": s["seconds"], "wall_s": round(time.time() - t0, 1)})
+    cov["samples"] += [{"engine": "race", "workloads": list(s["operations_by_workload"])}]
+
+
 def run_codec_engine(ctx, spec):
     """C05: real commit.Buffer vs coq/Buffer.v byte for byte; wire round trips and merge rewrite checked in the harness"""
     n = spec["quick"] if ctx.tier == "quick" else spec["thorough"]
@@ -564,7 +612,22 @@ def run_persist_engine(ctx, spec):
         ctx.checker_cmds.append("coqc snap_cases.v   # Snap.v snapshot state machine vs observed (failed, error, recorder)")
 
 
-ENGINES = {"hist": run_hist_engine, "persist": run_persist_engine, "alloc": run_alloc_engine, "codec": run_codec_engine, "sched": run_sched_engine}
+def run_ttl_engine(ctx, spec):
+    n = spec["quick"] if ctx.tier == "quick" else spec["thorough"]
+    out = os.path.join(CACHE, "run", f"{ctx.pid}_ttl")
+    vlib.sh([os.path.join(CACHE, "harness"), "ttl", "--seed", str(ctx.seed % 1000), "--n", str(n), "--out", out], timeout=1200)
+    s = json.load(open(os.path.join(out, "summary.json")))
+    ctx.checker_cmds.append(f".cache/harness ttl --n {n}   # real clock, bracketed")
+    cov = ctx.coverage
+    cov["evaluations"] += s["observations"]
+    cov["distinct_nontrivial"] += s["judged_observations"]
+    cov.setdefault("engines", []).append({k: s[k] for k in s if k not in ("failures", "samples")})
+    cov["samples"] += [{"engine": "ttl", "run": x} for x in (s.get("samples") or [])[:2]]
+    for f in (s.get("failures") or [])[:5]:
+        ctx.violation("ttl", f, data={"engine": "ttl", "seed": ctx.seed % 1000, "failure": f})
+
+
+ENGINES = {"ttl": run_ttl_engine, "hist": run_hist_engine, "race": run_race_engine, "persist": run_persist_engine, "alloc": run_alloc_engine, "codec": run_codec_engine, "sched": run_sched_engine}
 S = lambda scen, q, t, **kw: dict(engine="sched", scenarios=scen, quick=q, thorough=t, **kw)
 
 H = lambda profile, q, t, **kw: dict(engine="hist", profile=profile, quick=q, thorough=t, **kw)
@@ -603,6 +666,10 @@ PROPS = {
                 rule="histories with a recording logger: emitted commits (decoded per block) compared with the model's stream, ids checked to be distinct, non-zero and increasing per block; non-trivial = >=2 emitted commits with an abort or a multi-block transaction"),
     "C16": dict(engines=[H("sorted", 60, 800)],
                 rule="histories with a sorted index; non-trivial = an Ascend in the history"),
+    "C17": dict(engines=[dict(engine="ttl", quick=3, thorough=10)],
+                rule="real vacuum goroutine at intervals 1-120 ms; rows without TTL, long, short, extended and reset TTLs, a long deadline inserted before the short ones; every judged observation (outside the margins) is a distinct case"),
+    "C18": dict(engines=[dict(engine="race", quick=2, thorough=15), S("rows,snap,ins", 80, 1500, dfs_thorough=3000)], race=True,
+                rule="free-running workloads (updates+reads over two blocks, inserts/deletes with offset reuse, snapshots beside multi-block writers with restores, growth beside readers, index builds beside writers) on 16 cores under the race detector, reports deduplicated by function pair; plus controlled schedules with a watchdog (a thread that never finishes = deadlock)"),
     "C19": dict(engines=[H("mix", 60, 800)],
                 rule="histories with triggers created/dropped mid-history; non-trivial = >=2 trigger events"),
 }
